@@ -68,6 +68,8 @@ func (a *A) ruleSharedState() {
 	for _, g := range names {
 		if why, ok := table[g]; ok {
 			a.Ok("global:"+g, token.NoPos, "%s; writers: %v", why, gw[g])
+		} else if a.logOnceLatch(g) {
+			a.Ok("global:"+g, token.NoPos, "a sync.Once used only through Do, whose function writes nothing but a log line: a warn-once latch (log output only); users: %v", gw[g])
 		} else if ok, how := a.exclusivePool(g); ok {
 			a.Ok("global:"+g, token.NoPos, "a sync.Pool used only through Get/Put, and no object taken from it outlives the function that took it (%s): an exchange of scratch objects, each in exclusive use; users: %v", how, gw[g])
 		} else {
